@@ -350,6 +350,11 @@ class TDS(BaseRoutine):
             system.exit_code += 1
             return succeed
 
+        if self.busted:
+            logger.error('Simulation was terminated by an error at t=%.4f s and cannot be continued.', system.dae.t)
+            system.exit_code += 1
+            return succeed
+
         if no_summary is False and (system.dae.t == 0):
             self.summary()
 
@@ -362,9 +367,16 @@ class TDS(BaseRoutine):
             self.data_csv = self._load_csv(self.from_csv)
 
         # only initializing at t<0 allows to continue when `run` is called again.
-        if system.dae.t < 0:
+        resume = not (system.dae.t < 0)
+        if not resume:
             self.init()
-        else:  # resume simulation
+
+        if self.test_ok is False:
+            logger.error('Initialization failed. Simulation will not continue.')
+            system.exit_code += 1
+            return succeed
+
+        if resume:
             self.init_resume()
 
         if system.options.get("init") is True:
